@@ -67,6 +67,7 @@ Definition run_case (st : dstate) (x : sexp) : dstate * outcome :=
   | SList [SAtom "c10.run"; a; b; c] => (st, run_c10 a b c)
   | SList [SAtom "c18.view"; a; b; c; d; e; f] => (st, run_c18_view a b c d e f)
   | SList [SAtom "c18.codec"; a; b; c] => (st, run_c18_codec a b c)
+  | SList [SAtom "c18.mut"; k; a; b; c; d; e; f; g] => (st, run_c18_mut k a b c d e f g)
   | SList [SAtom "c16.roundtrip"; a; b; c; d; e] => (st, run_c16_roundtrip a b c d e)
   | SList (SAtom "c16.perm" :: a :: b :: res) => (st, run_c16_perm a b res)
   | SList (SAtom "c16.parse" :: a :: res) => (st, run_c16_parse a res)
